@@ -2259,7 +2259,7 @@ func DecodeQueuedState(buf []byte) (*QueuedState, error) {
 		sleepCmd, err := DecodeSleepCommand(sleepData)
 		if err == nil {
 			q.SleepCmd = sleepCmd
-			r.offset += 33 + len(sleepCmd.SeenBy)*16 // Advance past sleep command
+			r.offset += 16 + 8 + 8 + SignatureSize + 1 + len(sleepCmd.SeenBy)*16 // Advance past sleep command
 		}
 	}
 
